@@ -100,6 +100,11 @@ type GenOpts struct {
 	LocalFuncs    bool
 	MatchHeavy    bool
 	Layout        int // 0 compact, 1 airy
+
+	TypeGroups     bool // "type ... and ..." groups with forward references
+	AndHeavy       bool // mostly type groups (many cumulative forward references)
+	Collide        bool // user types take short names that also occur inside package_info blocks (Buffer, Dict, K, V ...)
+	AmbiguousCases bool // unions may reuse the case names of an earlier union (C05 only)
 }
 
 type Gen struct {
@@ -113,6 +118,9 @@ type Gen struct {
 	refs  map[int]bool
 	seq   int
 	tag   string // name prefix so that inserted items never clash with a base program
+
+	collide     []string
+	forwardRefs int // forward references inside type groups so far
 }
 
 func swarmOpts(r *common.Rng) GenOpts {
@@ -125,11 +133,33 @@ func swarmOpts(r *common.Rng) GenOpts {
 		LocalFuncs:    r.Chance(1, 2),
 		MatchHeavy:    r.Chance(1, 2),
 		Layout:        r.Intn(2),
+		TypeGroups:    r.Chance(1, 2),
+		AndHeavy:      r.Chance(1, 12),
+		Collide:       r.Chance(1, 4),
 	}
 }
 
 func newGen(r *common.Rng, o GenOpts, tag string) *Gen {
-	return &Gen{r: r, o: o, tag: tag, refs: map[int]bool{}}
+	g := &Gen{r: r, o: o, tag: tag, refs: map[int]bool{}}
+	if o.Collide && tag == "" {
+		// short names that also occur inside the package_info blocks of pkg_all.foi (type parameters, external types)
+		g.collide = []string{"Buffer", "Dict", "K", "V", "S", "Item", "Node"}
+		if !o.Generic {
+			g.collide = append(g.collide, "T", "U")
+		}
+	}
+	return g
+}
+
+// typeName gives a fresh type name; with the Collide knob some come from the pool of colliding short names.
+func (g *Gen) typeName(prefix string) string {
+	if len(g.collide) > 0 && g.r.Chance(1, 2) {
+		i := g.r.Intn(len(g.collide))
+		n := g.collide[i]
+		g.collide = append(g.collide[:i], g.collide[i+1:]...)
+		return n
+	}
+	return g.fresh(prefix)
 }
 
 func (g *Gen) fresh(prefix string) string {
@@ -146,7 +176,9 @@ func (g *Gen) use(item int) {
 func (g *Gen) push(kind, name, text string) int {
 	var refs []int
 	for k := range g.refs {
-		refs = append(refs, k)
+		if k != len(g.items) { // a type group refers to itself; that is not a dependency on another item
+			refs = append(refs, k)
+		}
 	}
 	sort.Ints(refs)
 	g.refs = map[int]bool{}
@@ -497,6 +529,17 @@ func (g *Gen) expr(t *GT, env *scope, d int) string {
 			}
 			cs = append(cs, c)
 		}
+		if d <= 0 {
+			var leaf []gCase
+			for _, c := range cs {
+				if !c.TParam && (c.Payload == nil || c.Payload.K == "int" || c.Payload.K == "string" || c.Payload.K == "bool") {
+					leaf = append(leaf, c)
+				}
+			}
+			if len(leaf) > 0 {
+				cs = leaf
+			}
+		}
 		c := cs[g.r.Intn(len(cs))]
 		if c.TParam {
 			return c.Name + " " + g.atom(t.Arg, env, d-1)
@@ -704,7 +747,7 @@ func (g *Gen) unionMatch(target string, ut *GT, t *GT, env *scope, indent int, d
 // ---- top-level items ----
 
 func (g *Gen) itemRecord() {
-	name := g.fresh("R")
+	name := g.typeName("R")
 	rc := &gRec{Name: name}
 	n := g.r.Range(1, 4)
 	generic := g.o.Generic && g.r.Chance(1, 4)
@@ -753,7 +796,7 @@ func (g *Gen) itemRecord() {
 }
 
 func (g *Gen) itemUnion() {
-	name := g.fresh("U")
+	name := g.typeName("U")
 	u := &gUni{Name: name, item: len(g.items)}
 	u.Generic = g.o.Generic && g.r.Chance(1, 5)
 	n := g.r.Range(1, 5)
@@ -762,8 +805,26 @@ func (g *Gen) itemUnion() {
 		hd += "<T>"
 	}
 	lines := []string{hd + " ="}
+	var reuse *gUni
+	if g.o.AmbiguousCases && !u.Generic && len(g.unis) > 0 && g.r.Chance(1, 2) {
+		if cand := g.unis[g.r.Intn(len(g.unis))]; !cand.Generic {
+			reuse = cand
+			n = len(cand.Cases)
+		}
+	}
 	for i := 0; i < n; i++ {
 		cn := fmt.Sprintf("%sC%d", name, i)
+		if reuse != nil {
+			c := reuse.Cases[i]
+			u.Cases = append(u.Cases, c)
+			if c.Payload == nil {
+				lines = append(lines, "  | "+c.Name)
+			} else {
+				g.useType(c.Payload)
+				lines = append(lines, "  | "+c.Name+" of "+c.Payload.String())
+			}
+			continue
+		}
 		switch {
 		case u.Generic && i == 0:
 			u.Cases = append(u.Cases, gCase{Name: cn, TParam: true})
@@ -908,6 +969,10 @@ func (g *Gen) itemMain() {
 func (g *Gen) oneItem() {
 	n := g.r.Intn(20)
 	switch {
+	case g.o.AndHeavy && n < 14:
+		g.itemTypeGroup()
+	case g.o.TypeGroups && n < 2:
+		g.itemTypeGroup()
 	case n < 3:
 		g.itemRecord()
 	case n < 6:
@@ -988,8 +1053,9 @@ func cutFiles(g *Gen, r *common.Rng, nfiles int, dirs []string) (argv []string, 
 	idx := 0
 	var sb strings.Builder
 	sb.WriteString(genHeader)
+	style := r.Intn(8)
 	flush := func() {
-		name := fmt.Sprintf("%s/m%d.fo", dirs[idx%len(dirs)], idx)
+		name := fmt.Sprintf("%s/%s", dirs[idx%len(dirs)], fileName(style, "m", idx))
 		files[name] = []byte(sb.String())
 		argv = append(argv, name)
 		idx++
@@ -1009,6 +1075,7 @@ func cutFiles(g *Gen, r *common.Rng, nfiles int, dirs []string) (argv []string, 
 func genProgramC05(r *common.Rng, i int) *Program {
 	o := swarmOpts(r)
 	o.Ambiguous = r.Chance(1, 5)
+	o.AmbiguousCases = r.Chance(1, 6)
 	o.Reject = r.Chance(1, 8)
 	if r.Chance(1, 2) {
 		o.Items = r.Range(3, 25)
@@ -1029,9 +1096,196 @@ func genProgramC05(r *common.Rng, i int) *Program {
 	if o.Ambiguous {
 		name += ":ambiguous"
 	}
+	// a later file of another package redeclares a record name of an earlier file, adds a record with the same
+	// field names and uses a literal of them (legal across packages in one invocation)
+	if len(argv) > 1 && r.Chance(1, 4) {
+		var cands []*gRec
+		for _, rc := range g.recs {
+			if !rc.Generic && len(rc.Fields) > 0 {
+				cands = append(cands, rc)
+			}
+		}
+		if len(cands) > 0 {
+			rc := cands[r.Intn(len(cands))]
+			var fs, lit []string
+			ok := true
+			for _, f := range rc.Fields {
+				if f.T.K != "int" && f.T.K != "string" && f.T.K != "bool" {
+					ok = false
+				}
+				fs = append(fs, f.Name+": "+f.T.String())
+				lit = append(lit, f.Name+"="+map[string]string{"int": "1", "string": "\"s\"", "bool": "true"}[f.T.K])
+			}
+			if ok {
+				last := argv[len(argv)-1]
+				body := strings.Replace(string(files[last]), "package main", "package other", 1)
+				body += "\ntype " + rc.Name + " = {" + strings.Join(fs, "; ") + "}\n\ntype ZzSame = {" + strings.Join(fs, "; ") + "}\n\nlet zzLit () =\n  {" + strings.Join(lit, "; ") + "}\n"
+				files[last] = []byte(body)
+				name += ":redeclare"
+			}
+		}
+	}
 	files["pkg/pkg_all.foi"] = pkgAllFoi
-	return newProgram(name, append([]string{"pkg/pkg_all.foi"}, argv...), files, "gen")
+	all := append([]string{"pkg/pkg_all.foi"}, argv...)
+	// argv quirks: the same file twice (also under another spelling of its path)
+	switch r.Intn(12) {
+	case 0:
+		all = append(all, argv[0])
+		name += ":twice"
+	case 1:
+		all = append(all, "./"+argv[r.Intn(len(argv))])
+		name += ":twice-dotslash"
+	case 2:
+		if len(argv) > 1 {
+			all = append(all, argv[0], argv[len(argv)-1])
+			name += ":twice2"
+		}
+	}
+	return newProgram(name, all, files, "gen")
 }
 
 // pkgAllFoi is the working tree's pkg/pkg_all.foi, loaded once per check.
 var pkgAllFoi []byte
+
+// itemTypeGroup: a "type A = ... and B = ... and C = ..." group whose members refer to each other, also
+// forwards. Recursion always passes through a union (records only refer to unions of the group), and every
+// union has a leaf case so that values can be built.
+func (g *Gen) itemTypeGroup() {
+	k := g.r.Range(2, 4)
+	if g.o.AndHeavy {
+		k = g.r.Range(3, 5)
+	}
+	item := len(g.items)
+	type member struct {
+		rec *gRec
+		uni *gUni
+	}
+	var ms []member
+	haveUnion := false
+	for i := 0; i < k; i++ {
+		if i == k-1 && !haveUnion || g.r.Chance(1, 2) {
+			u := &gUni{Name: g.typeName("U"), item: item}
+			ms = append(ms, member{uni: u})
+			haveUnion = true
+		} else {
+			rc := &gRec{Name: g.typeName("R"), item: item}
+			ms = append(ms, member{rec: rc})
+		}
+	}
+	var unions []*gUni
+	for _, m := range ms {
+		if m.uni != nil {
+			unions = append(unions, m.uni)
+		}
+	}
+	pos := map[string]int{}
+	for i, m := range ms {
+		if m.uni != nil {
+			pos[m.uni.Name] = i
+		} else {
+			pos[m.rec.Name] = i
+		}
+	}
+	groupType := func(self int, allowRec bool) *GT {
+		var t *GT
+		if allowRec && g.r.Chance(1, 2) {
+			m := ms[g.r.Intn(len(ms))]
+			if m.rec != nil {
+				t = &GT{K: "rec", Name: m.rec.Name}
+			} else {
+				t = &GT{K: "uni", Name: m.uni.Name}
+			}
+		} else {
+			u := unions[g.r.Intn(len(unions))]
+			t = &GT{K: "uni", Name: u.Name}
+		}
+		if pos[t.Name] > self {
+			g.forwardRefs++
+		}
+		if g.r.Chance(1, 4) {
+			return tSlice(t)
+		}
+		return t
+	}
+	var parts []string
+	for i, m := range ms {
+		kw := "and"
+		if i == 0 {
+			kw = "type"
+		}
+		if m.uni != nil {
+			u := m.uni
+			lines := []string{kw + " " + u.Name + " ="}
+			n := g.r.Range(2, 4)
+			for c := 0; c < n; c++ {
+				cn := fmt.Sprintf("%sC%d", u.Name, c)
+				switch {
+				case c == 0: // the leaf case
+					if g.r.Chance(1, 2) {
+						u.Cases = append(u.Cases, gCase{Name: cn})
+						lines = append(lines, "  | "+cn)
+					} else {
+						u.Cases = append(u.Cases, gCase{Name: cn, Payload: tInt})
+						lines = append(lines, "  | "+cn+" of int")
+					}
+				case g.r.Chance(3, 4):
+					pt := groupType(i, true)
+					u.Cases = append(u.Cases, gCase{Name: cn, Payload: pt})
+					lines = append(lines, "  | "+cn+" of "+pt.String())
+				default:
+					pt := g.baseType()
+					u.Cases = append(u.Cases, gCase{Name: cn, Payload: pt})
+					lines = append(lines, "  | "+cn+" of "+pt.String())
+				}
+			}
+			parts = append(parts, strings.Join(lines, "\n"))
+		} else {
+			rc := m.rec
+			n := g.r.Range(1, 3)
+			var fs []string
+			for f := 0; f < n; f++ {
+				fn := fmt.Sprintf("%sF%d", rc.Name, f)
+				var ft *GT
+				if f == 0 || g.r.Chance(1, 2) {
+					ft = groupType(i, false)
+				} else {
+					ft = g.baseType()
+				}
+				rc.Fields = append(rc.Fields, gField{fn, ft})
+				fs = append(fs, fn+": "+ft.String())
+			}
+			parts = append(parts, kw+" "+rc.Name+" = {"+strings.Join(fs, "; ")+"}")
+		}
+	}
+	for _, m := range ms {
+		if m.uni != nil {
+			g.unis = append(g.unis, m.uni)
+		} else {
+			g.recs = append(g.recs, m.rec)
+		}
+	}
+	name := ""
+	if ms[0].uni != nil {
+		name = ms[0].uni.Name
+	} else {
+		name = ms[0].rec.Name
+	}
+	g.push("type", name, strings.Join(parts, "\n")+"\n\n")
+}
+
+// fileName: file-name shapes a user may legally choose; gen_<base>.go must follow the whole base name.
+func fileName(style int, stem string, idx int) string {
+	switch style {
+	case 1:
+		return fmt.Sprintf("%s%d.part.fo", stem, idx)
+	case 2:
+		return fmt.Sprintf("shapes.%s%d.fo", stem, idx) // siblings share the first dot-separated part
+	case 3:
+		return fmt.Sprintf("gen_%s%d.fo", stem, idx)
+	case 4:
+		return fmt.Sprintf("%s-%d_x.fo", strings.ToUpper(stem), idx)
+	case 5:
+		return fmt.Sprintf("%s%d.fo.fo", stem, idx)
+	}
+	return fmt.Sprintf("%s%d.fo", stem, idx)
+}
